@@ -83,9 +83,19 @@ const KEY_UNITS: &[&str] = &[
     "startAt", "lastFrame", "players", "names", "netplay", "code", "characters", "playedOn", "consoleNick", "0", "1",
     "18", "a", "", "\u{e9}t\u{e9}", "\u{30b9}\u{30de}\u{30d6}\u{30e9}", "key with space", "\u{1F600}",
 ];
-const STR_UNITS: &[&str] = &["a", "B", "7", " ", "-", ":", "\u{e9}", "\u{3042}", "\u{1F600}", "\"", "\\", "\n", "\u{0}", "\u{7f}"];
+const STR_UNITS: &[&str] = &["\u{feff}", "a", "B", "7", " ", "-", ":", "\u{e9}", "\u{3042}", "\u{1F600}", "\"", "\\", "\n", "\u{0}", "\u{7f}"];
 
 fn gen_string(rng: &mut Rng, max_bytes: usize) -> String {
+    // a byte-order mark at the very start of a string is ordinary content, not an encoding signature
+    if max_bytes >= 8 && rng.chance(1, 25) {
+        let mut s = String::from("\u{feff}");
+        s.push_str(&gen_string_inner(rng, max_bytes - 3));
+        return s;
+    }
+    gen_string_inner(rng, max_bytes)
+}
+
+fn gen_string_inner(rng: &mut Rng, max_bytes: usize) -> String {
     let want = match rng.below(10) {
         0 => 0,
         1 => max_bytes,
